@@ -76,7 +76,7 @@ def concretise(c):
             return default
         return docgen.text_of(docgen.document(e, ver, hook))
 
-    if k in ("seqlen", "seqbad"):
+    if k in ("seqlen", "seqbad", "seqhalf"):
         i = c["i"] - 1
         p = el["params"][i]
 
@@ -90,6 +90,8 @@ def concretise(c):
                     for _ in range(c["n"]):
                         out += [docgen.sample(q["type"], ctr, ver) for q in p["seq"]]
                     return out
+                if k == "seqhalf":
+                    return list(default[:w]) + list(default[w:2 * w - 1])
                 # one complete item, then an item whose last field has the wrong class / is missing
                 bad = list(default[:w]) + list(default[w:2 * w - 1]) + ([docgen.other_class(p["seq"][-1]["type"])] if w > 1 else [docgen.other_class(p["seq"][0]["type"])])
                 return bad
